@@ -3,6 +3,7 @@ import theta_rules as T
 import chains
 import hll_rules
 import generic_lints
+import hazard_lints
 import predicates
 import c19_rules
 import triggers
@@ -22,6 +23,7 @@ def run(facts, tier):
         ("reset completeness", lambda fa: c19_rules.reset_completeness(fa, ['update_theta_sketch_alloc','theta_update_sketch_base']), 6, "every field a mutator modifies is re-initialised by reset() (a reused object equals a fresh one); reviewed exceptions are configuration fields"),
         ("emptiness predicate support", lambda fa: predicates.obligations(fa, ['update_theta_sketch_alloc','compact_theta_sketch_alloc']), 2, "the emptiness predicate still consults every field it depended on in the reviewed tree (spec/predicates.json)"),
         ("tautologies", lambda fa: generic_lints.tautologies(fa, ('theta/',)), 2, "no comparison / assignment / min-max with two identical operands, no if-else with identical arms"),
+        ("hazards", lambda fa: hazard_lints.hazards(fa, ('theta/',)), 2, "no 64-bit value silently narrowed at a call of a library function, no numeric_limits<floating>::min() as a lowest value, no random engine constructed inside a loop, no read of a moved-from parameter, no unguarded unsigned `x - c` loop bound (reviewed instances in spec/hazards.json)"),
         ("duplicate operands", lambda fa: generic_lints.duplicate_conjuncts(fa, ('theta/',)), 2, "no logical chain tests the same operand twice (copy-paste of the wrong peer)"),
         ("forwarding peers", lambda fa: generic_lints.forwarding_peers(fa, ('theta/',)), 8, "one-statement typed overloads forward to an overload of their own name, never to the head of a sibling family (wrong peer)"),
         ("structural triggers", lambda fa: triggers.obligations(fa, ['theta_update_sketch_base']), 3, "the comparisons that decide when to resize / rebuild / compact / purge / promote keep their reviewed boundary (operator and constants)"),
